@@ -1,0 +1,27 @@
+//go:build verif
+
+// Contracts for deductive verification (comment-only; compiled only with -tags verif).
+package resp
+
+// ---- C04: a buffered response is header, then (only if a body may be sent) exactly the body ----
+// clArg: argument of the last SetContentLength call; mustSkip: result of MustSkipBody;
+// hdrWritten: the header block has been handed to the writer.
+//@ ghost var clArg int
+//@ ghost var mustSkip bool
+//@ ghost var hdrWritten bool
+//@ ghost var bodyWritten bool
+
+//@ func Write(resp, w) err
+//@   props C04
+//@   abstract
+//@   noinline
+//@   ghostset-at-entry clArg = -5
+//@   ghostset-at-entry hdrWritten = false
+//@   ghostset-at-entry bodyWritten = false
+//@   ghostset after MustSkipBody: mustSkip = result
+//@   ghostset after SetContentLength: clArg = arg1
+//@   assert before Header: (sendBody || bodyLen > 0) ==> clArg == bodyLen
+//@   assert before WriteBinary#0: !hdrWritten && !bodyWritten
+//@   ghostset after WriteBinary#0: hdrWritten = true
+//@   assert before WriteBinary#1: hdrWritten && !bodyWritten && !mustSkip && len(arg1) > 0 && clArg == len(arg1) && sameSlice(arg1, body)
+//@   ghostset after WriteBinary#1: bodyWritten = true
